@@ -868,4 +868,24 @@ theorem construct_keyless {V : Type} (cv : Conv V) (numId : Nat) (rules : List (
   simp only [keyEmpty_of_blank _ hb]
   simp [hn]
 
+/-- the call index of a row is the start plus the number of earlier rows whose `__init__` ran -/
+theorem callIdxs_count (n : Nat) (sl : List Slot) :
+    ∀ (curs : List Row) (k i kk : Nat), (callIdxs n sl k curs)[i]? = some kk →
+      kk = k + ((curs.take i).filter (ranInit n sl)).length := by
+  intro curs
+  induction curs with
+  | nil => intro k i kk h; simp [callIdxs] at h
+  | cons c cs ih =>
+    intro k i kk h
+    simp only [callIdxs] at h
+    cases i with
+    | zero => simp at h; subst h; simp
+    | succ i =>
+      have := ih (nextK n sl k c) i kk (by simpa using h)
+      rw [this]
+      simp only [List.take_succ_cons, List.filter_cons, nextK]
+      by_cases hr : ranInit n sl c = true
+      · simp [hr]; omega
+      · simp [hr]
+
 end Xls
